@@ -46,6 +46,10 @@ def make_program(ch: Choices, tier: str) -> Program:
             t = [ok(k0="s")] if i < ln - 1 else [{"b": "jumper", "target": refs[0], "n": n, "out": {"k1": "s"}}]
             stages.append({"ref": r, "deps": [refs[i - 1]] if i else [], "ctx": dict(sctx) if i == ln - 1 else {}, "tasks": t})
         stages.append({"ref": "Z", "deps": [refs[-1]], "ctx": {}, "tasks": [ok()]})
+        if ch.flip("c15.synth", 0.35):
+            # the jump target owns before- (and after-) stages built by its stage builder at every start
+            stages[0]["synth"] = {"before": 1 + ch.pick("c15.nb", 2), "after": ch.pick("c15.na", 2), "fail": 0,
+                                  "chain": ch.pick("c15.chain", 2)}
         model.update(src=refs[-1], loop=refs, after=["Z"], once=[])
     elif shape == "side":
         # A -> B -> B2 -> D ; A -> C -> D ; B2 jumps back to B.  D waits for both branches.
@@ -141,6 +145,17 @@ def judge(prog: Program, ref: Any, run: dict[str, Any], info: dict[str, Any]) ->
             problems.append(("iteration-run-count", f"stage {r} of the loop body executed {c} times over {iters} iteration(s)",
                              "loop-count:" + ("more" if c > iters else "fewer")))
             break
+    # synthetic before-/after-stages of a loop stage are part of that stage's run: once per iteration, too
+    if not exceeded:
+        for r in m["loop"]:
+            sy = prog.stages[r].get("synth") or {}
+            for kind in ("before", "after"):
+                for i in range(int(sy.get(kind, 0) or 0)):
+                    c = counts.get(f"t_{r}_{kind}{i}", 0)
+                    if c != iters:
+                        problems.append(("iteration-run-count", f"{kind}-stage {i} of loop stage {r} executed {c} times over {iters} iteration(s)",
+                                         f"synthetic-count:{kind}:" + ("more" if c > iters else "fewer")))
+                        break
     for r in m["once"]:
         c = counts.get(task_name(r, 0), 0)
         # when the limit is exceeded the failing loop cancels whatever still runs beside it: 0 or 1 are both fine then
